@@ -103,6 +103,57 @@ def run_cmd(op, idx):
     return result
 
 
+DIR_CALLS = [0]
+
+
+def install_dir_order(policy):
+    """Directory-enumeration seam: the order in which os.listdir / os.scandir (and therefore os.walk, glob,
+    setuptools.find_packages) return the entries of a directory is decided by the simulator instead of the file system.
+    policy 1 = sorted, 2 = reverse sorted, n >= 3 = a permutation seeded by n and the set of names.  Installed before any
+    cdd module is imported, so `from os import listdir` binds the seam."""
+    import random
+    real_listdir, real_scandir = os.listdir, os.scandir
+
+    def permute(items, key):
+        items = sorted(items, key=key)
+        if policy == 2:
+            items.reverse()
+        elif policy >= 3:
+            names = "\0".join(str(key(i)) for i in items)
+            random.Random("%d:%s" % (policy, names)).shuffle(items)
+        if len(items) > 1:
+            DIR_CALLS[0] += 1
+        return items
+
+    def listdir(*a, **kw):
+        return permute(real_listdir(*a, **kw), lambda n: n)
+
+    class ScanDir(object):
+        def __init__(self, *a, **kw):
+            self._real = real_scandir(*a, **kw)
+            self._it = None
+
+        def __iter__(self):
+            return self
+
+        def __next__(self):
+            if self._it is None:
+                self._it = iter(permute(list(self._real), lambda e: e.name))
+            return next(self._it)
+
+        def close(self):
+            self._real.close()
+
+        def __enter__(self):
+            return self
+
+        def __exit__(self, *exc):
+            self.close()
+            return False
+
+    os.listdir, os.scandir = listdir, ScanDir
+
+
 def run_one(op, idx):
     if op["kind"] == "cmd":
         return run_cmd(op, idx)
@@ -125,6 +176,8 @@ def main():
     sys.dont_write_bytecode = True
     plan = json.load(sys.stdin)
     verbose = plan.get("verbose")
+    if plan.get("dirorder"):
+        install_dir_order(int(plan["dirorder"]))
     out = []
     for idx, item in enumerate(plan["ops"]):
         res = run_one(item["op"], idx)
@@ -136,7 +189,8 @@ def main():
         if verbose and item["id"] in verbose:
             rec["outcome"] = res
         out.append(rec)
-    sys.__stdout__.write(json.dumps({"hashseed": os.environ.get("PYTHONHASHSEED"), "results": out}) + "\n")
+    sys.__stdout__.write(json.dumps({"hashseed": os.environ.get("PYTHONHASHSEED"), "dirorder": plan.get("dirorder", 0),
+                                     "dir_calls_permuted": DIR_CALLS[0], "results": out}) + "\n")
 
 
 if __name__ == "__main__":
